@@ -10,7 +10,8 @@
           ctx: top | fn (inside the body of ff, called here) | loop (inside a 2-iteration for: fails twice)
                | branch (inside if true) | script (a script-implemented command, array_join, fails: the error
                surfaces at the caller's line with the command's own message) | incl (in an included file)
-     [k |-> "eoe", on]        exit_on_error true / false
+     [k |-> "eoe", on, sp]    exit_on_error <sp>: sp is a spelling of the flag; on = its documented truth value
+                              (falsy: "", 0, false, no - case-insensitively; everything else is truthy)
      [k |-> "obs"]            e/l/s = get_last_error / _line / _source ; emit e l s o
    Exec folds the items into the list of observations and the outcome. *)
 EXTENDS Naturals, Sequences, TLC, FiniteSets
@@ -39,4 +40,7 @@ Run(items, k, st) ==
            ELSE Run(items, k+1, [st EXCEPT !.last = e, !.o = "false"])        \* in a loop it fails twice: same error both times
 Exec(items) == Run(items, 1, [last |-> NoErr, eoe |-> FALSE, o |-> "", obs |-> <<>>])
 Ctxs == {"top", "fn", "loop", "branch", "script", "incl"}
+Spellings == {"true", "1", "yes", "false", "0", "no"}
+Truthy(sp) == sp \in {"true", "1", "yes"}
+EoeItems == { [k |-> "eoe", on |-> Truthy(sp), sp |-> sp] : sp \in Spellings }
 =============================================================================
